@@ -496,8 +496,15 @@ func (fr *frame) visit(instr ssa.Instruction) continuation {
 			if e.branch(e.tt.Cmp(OpSlt, lt, e.tt.BV(64, 0))) {
 				fr.rtPanic(instr, "makeslice: len out of range")
 			}
-			if e.branch(e.tt.Cmp(OpSlt, e.tt.BV(64, uint64(e.cfg.FanOut*64)), lt)) {
-				panic(pathEnd{"truncated", "makeslice with unbounded symbolic length at " + e.pos(instr.Pos())})
+			// makeslice panics when len*elemsize exceeds maxAlloc (2^48 on
+			// linux/amd64); smaller symbolic lengths are concretised (and
+			// truncate the path when unbounded).
+			esz := e.ld.sizes.Sizeof(instr.Type().Underlying().(*types.Slice).Elem())
+			if esz < 1 {
+				esz = 1
+			}
+			if e.branch(e.tt.Cmp(OpSlt, e.tt.BV(64, uint64((1<<48)/esz)), lt)) {
+				fr.rtPanic(instr, "makeslice: len out of range")
 			}
 		}
 		sameCap := lt == ct
